@@ -83,6 +83,12 @@ def jobs(tier, seed):
         for pat in pats6[:6]:
             js.append({'harness': 'sp', 'weight': 200, 'opts': {'max_paths': 30000},
                        'cfg': {'kind': 'SP', 'rate': 8, 'table': tables[0], 'flows': pat, 'sorts': 'int', 'smax': 3}})
+    # priority values need not be integers (2.25 < 2.75: same integer part)
+    for t in ({0: 2.25, 1: 2.75}, {0: 2.75, 1: 2.25}):
+        js.append({'harness': 'sp', 'weight': 12,
+                   'cfg': {'kind': 'SP', 'rate': 8, 'table': t, 'flows': [0, 1, 0, 1], 'sorts': 'int', 'burst': [0, 1, 1, 1]}})
+        js.append({'harness': 'sp', 'weight': 12,
+                   'cfg': {'kind': 'SP', 'rate': 8, 'table': t, 'flows': [0, 1, 1, 0], 'sorts': 'int'}})
     # three priority levels
     for pat in ([0, 1, 2, 2], [2, 1, 0, 1]) if tier == 'quick' else ([0, 1, 2, 2, 1], [2, 1, 0, 1, 0], [1, 1, 2, 0, 2]):
         js.append({'harness': 'sp', 'weight': 15,
@@ -98,7 +104,7 @@ META = {
             'different priority (an obligation of the strictness rule was generated)',
     'required_labels': ['c13.strict-priority', 'c13.work-conserving-rate-exact'],
     'required_covers': ['nontrivial', 'burst-mixed-priorities'],
-    'bounds': {'quick': 'n=4 packets, 2-3 flows, priority tables {1,2},{2,1},{1,1},{1,2,3}; sizes, gaps unbounded',
+    'bounds': {'quick': 'n=4 packets, 2-3 flows, priority tables {1,2},{2,1},{1,1},{1,2,3},{2.25,2.75}; sizes, gaps unbounded',
                'thorough': 'n=5, all 2-flow patterns; six seed-chosen patterns of n=6 (sizes <= 3)'},
     'assumptions': ['a packet arriving at exactly the instant of a service start, in a later kernel step than the packet '
                     'being started, is not counted as waiting (the statement does not order them)'],
